@@ -10,9 +10,11 @@ FEATURES = ["mass", "length", "duration", "area", "volume", "speed", "accelerati
             "datavolume", "datathroughput", "temperature"]
 RULE = ("a probe crate with the same feature names (each forwarding only to quantities/<feature>) whose main, under cfg(feature), names the "
         "module, applies the declared derivation operators of that quantity and prints a fixed operation corpus (all unit pairs: conversion, "
-        "comparison, + - /, formatting; Temperature and two user-defined macro types: all unit pairs incl. ties with panics captured) as events; built and run for the 14 features individually, all jointly and none x {std, no std} x "
-        "{f64, Decimal} x {serde on, off}; quick = 16 sets in the default variant + the 8 variants of 'all' and 'none' (30 builds), thorough = "
-        "all 128; build verdict must be success; per back-end the event segment of each quantity must be identical in every configuration "
+        "comparison, + - /, formatting; Temperature and user-defined macro types - plain, without reference unit, product, square, quotient, "
+        "reciprocal of the bare amount - present in EVERY configuration: all unit pairs incl. ties with panics captured) as events; built and run for the 14 features individually, all jointly and none x {std, no std} x "
+        "{f64, Decimal} x {serde on, off}, plus 'all' and 'none' with only the LIBRARY's serde feature on (the crate using the macro has no "
+        "serde dependency); quick = 16 sets in the default variant + the 8 variants of 'all' and 'none' + 4 library-serde-only (34 builds), "
+        "thorough = all 128 + 8; build verdict must be success; per back-end the event segment of each quantity must be identical in every configuration "
         "that contains it; cell = configuration; non-trivial = configurations with at least one quantity feature")
 
 MAIN_RS = r'''
@@ -124,6 +126,32 @@ struct Udef {}
 #[unit(Halfuref, "hur", 0.5, "ur/2")]
 struct Urq {}
 
+#[quantity]
+#[ref_unit(Vref, "vr", "vref")]
+#[unit(Millivref, "mvr", MILLI, 0.001, "0.001·vr")]
+struct Vrq {}
+
+// derived user-defined quantities (product, square, quotient, reciprocal of the bare amount type)
+#[quantity(Urq * Vrq)]
+#[ref_unit(Uv, "ur·vr")]
+#[unit(Kilouv, "kur·vr", 1000, "1000·ur·vr")]
+struct UrqVrq {}
+
+#[quantity(Urq * Urq)]
+#[ref_unit(Squref, "ur²")]
+#[unit(Sqkilouref, "kur²", 1000000, "kur²")]
+struct UrqSq {}
+
+#[quantity(Urq / Vrq)]
+#[ref_unit(Upv, "ur/vr")]
+#[unit(Kiloupv, "kur/vr", 1000, "1000·ur/vr")]
+struct UrqPerVrq {}
+
+#[quantity(AmountT / Urq)]
+#[ref_unit(Peruref, "1/ur")]
+#[unit(Perkilouref, "1/kur", 0.001, "0.001/ur")]
+struct UrqInv {}
+
 /// with serialisation support enabled the quantity and its unit type must be (de)serialisable
 #[cfg(feature = "serde")]
 fn serde_corpus<Q>(tag: &str)
@@ -157,6 +185,12 @@ fn main() {
         corpus::<Urq>("udef");
         serde_corpus::<Udef>("udef");
         serde_corpus::<Urq>("udef");
+        dmul::<Urq, Vrq, UrqVrq>("udef", "UxV"); dmul::<Vrq, Urq, UrqVrq>("udef", "VxU"); ddiv::<UrqVrq, Urq, Vrq>("udef", "UV/U"); ddiv::<UrqVrq, Vrq, Urq>("udef", "UV/V");
+        dmul::<Urq, Urq, UrqSq>("udef", "UxU"); ddiv::<UrqSq, Urq, Urq>("udef", "UU/U");
+        ddiv::<Urq, Vrq, UrqPerVrq>("udef", "U/V"); dmul::<UrqPerVrq, Vrq, Urq>("udef", "UpVxV"); dmul::<Vrq, UrqPerVrq, Urq>("udef", "VxUpV"); ddiv::<Urq, UrqPerVrq, Vrq>("udef", "U/UpV");
+        ddiv::<AmountT, Urq, UrqInv>("udef", "1/U"); dmul::<UrqInv, Urq, AmountT>("udef", "IxU"); dmul::<Urq, UrqInv, AmountT>("udef", "UxI"); ddiv::<AmountT, UrqInv, Urq>("udef", "1/I");
+        corpus::<UrqInv>("udef-inv");
+        println!("udef|amount|{}|{}|{:?}", HasRefUnit::convert(&Amnt!(2.5), ONE), HasRefUnit::equiv_amount(&Amnt!(4), ONE), <AmountT as HasRefUnit>::unit_from_scale(Amnt!(1)));
     });
     #[cfg(feature = "mass")]
     section("mass", || {
@@ -328,7 +362,9 @@ def probe_cargo():
     lines = ['[package]', 'name = "featprobe"', 'version = "0.0.0"', 'edition = "2021"', 'publish = false', '', '[workspace]', '',
              '[dependencies]', 'quantities = { path = "%s", default-features = false }' % REPO,
              'serde = { version = "1", optional = true }', 'serde_json = { version = "1.0", optional = true }', '', '[features]', 'default = []',
-             'std = ["quantities/std"]', 'fpdec = ["quantities/fpdec"]', 'serde = ["quantities/serde", "dep:serde", "dep:serde_json"]']
+             'std = ["quantities/std"]', 'fpdec = ["quantities/fpdec"]', 'serde = ["quantities/serde", "dep:serde", "dep:serde_json"]',
+             '# serialisation support of the library switched on by somebody else in the build graph, while this crate has no serde dependency',
+             'libserde = ["quantities/serde"]']
     for f in FEATURES:
         lines.append('%s = ["quantities/%s"]' % (f, f))
     lines += ['', '[profile.dev]', 'opt-level = 0', 'debug = 0', 'incremental = false', '', '[lints.rust]', 'unexpected_cfgs = "allow"', 'unused = "allow"']
@@ -346,12 +382,18 @@ def configs(tier):
                     if tier == "quick" and not (default_variant or name in ("all", "none")):
                         continue
                     out.append({"set": name, "features": fs, "std": std, "dec": dec, "serde": serde})
+    # the library's serde feature on, the probe's own off (no serde dependency in the crate that uses the macro)
+    for name, fs in sets:
+        for std in (True, False):
+            for dec in (False, True):
+                if name in ("all", "none") and (tier == "thorough" or std != dec):
+                    out.append({"set": name, "features": fs, "std": std, "dec": dec, "serde": False, "libserde": True})
     return out
 
 
 def run_config(args):
     cfg, cdir, slot = args
-    feats = list(cfg["features"]) + (["std"] if cfg["std"] else []) + (["fpdec"] if cfg["dec"] else []) + (["serde"] if cfg["serde"] else [])
+    feats = list(cfg["features"]) + (["std"] if cfg["std"] else []) + (["fpdec"] if cfg["dec"] else []) + (["serde"] if cfg["serde"] else []) + (["libserde"] if cfg.get("libserde") else [])
     tgt = os.path.join(WORK, "target-c19-%d" % slot)
     cmd = ["build", "--message-format=json"]
     if feats:
@@ -379,7 +421,8 @@ def _slot_worker(args):
 
 
 def cfg_name(c):
-    return "%s/%s/%s/%s" % (c["set"], "std" if c["std"] else "no_std", "dec" if c["dec"] else "f64", "serde" if c["serde"] else "no_serde")
+    return "%s/%s/%s/%s" % (c["set"], "std" if c["std"] else "no_std", "dec" if c["dec"] else "f64",
+                            "lib_serde_only" if c.get("libserde") else ("serde" if c["serde"] else "no_serde"))
 
 
 def main(tier, seed, nproc, t0):
